@@ -491,6 +491,105 @@ func senModelTie(rep *Report, r *Rng, tier, model string) {
 			}
 		}
 	}
+	// arrays of strings: sen_array against sen.String in tight mode, read_array against sen.Parse
+	{
+		var arrs [][]string
+		arrs = append(arrs, []string{}, []string{""}, []string{"a"}, []string{"a", "b"}, []string{"a b", "c"}, []string{"true", "x"}, []string{"", ""}, []string{"é", "\xff", "a\"b", "]", "[", " "})
+		na := 400
+		if tier == "thorough" {
+			na = 8000
+		}
+		for i := 0; i < na; i++ {
+			k := r.Intn(5)
+			a := make([]string, k)
+			for j := range a {
+				a[j] = strs[r.Intn(len(strs))]
+			}
+			arrs = append(arrs, a)
+		}
+		reqs = reqs[:0]
+		for _, a := range arrs {
+			for h := 0; h < 2; h++ {
+				q := fmt.Sprintf("senarr\t%d\t", h)
+				for _, x := range a {
+					q += "," + hx([]byte(x))
+				}
+				reqs = append(reqs, q)
+			}
+		}
+		ans, err = RunModel(model, reqs)
+		if err != nil {
+			rep.Add(Disagreement{Case: "model", Kind: "harness-error", Detail: err.Error()})
+			return
+		}
+		var rtexts []string
+		for i, a := range arrs {
+			l := make([]any, len(a))
+			for j, x := range a {
+				l[j] = x
+			}
+			for h := 0; h < 2; h++ {
+				rep.Evaluations++
+				got := sen.String(l, &ojg.Options{Sort: true, HTMLUnsafe: h == 0})
+				if hx([]byte(got)) != ans[2*i+h] {
+					rep.Add(Disagreement{Case: fmt.Sprintf("%q html=%d", a, h), Where: "sen.String (array of strings, tight)", Kind: "impl-vs-model:sen-string", Impl: hx([]byte(got)), Model: ans[2*i+h]})
+				}
+				rtexts = append(rtexts, got)
+			}
+		}
+		rtexts = append(rtexts, "[a b]", "[ a  b ]", "[a,b]", "[\"a\" 'b']", "[a\tb]", "[a\"b\"]", "[]", "[ ]", "[a", "[a]]", "[a [b]]", "[a:b]", "[-a]", "[a\rb]")
+		reqs = reqs[:0]
+		for _, t := range rtexts {
+			reqs = append(reqs, "senreadarr\t"+hx([]byte(t)))
+		}
+		ans, err = RunModel(model, reqs)
+		if err != nil {
+			rep.Add(Disagreement{Case: "model", Kind: "harness-error", Detail: err.Error()})
+			return
+		}
+		ain := 0
+		for i, t := range rtexts {
+			rep.Evaluations++
+			if ans[i] == "-" || !strings.HasSuffix(ans[i], "|") {
+				continue // outside the model, or text after the array
+			}
+			ain++
+			var want []any
+			for _, f := range strings.Fields(strings.TrimSuffix(ans[i], "|")) {
+				b, _ := hex.DecodeString(f[1:])
+				var v any = string(b)
+				if f[0] == 'T' {
+					switch string(b) {
+					case "null":
+						v = nil
+					case "true":
+						v = true
+					case "false":
+						v = false
+					}
+				}
+				want = append(want, v)
+			}
+			if want == nil {
+				want = []any{}
+			}
+			exp := "O " + Show(want)
+			ones := make([]int, len(t))
+			for k := range ones {
+				ones[k] = 1
+			}
+			for _, alt := range []struct{ where, got string }{
+				{"sen.Parse vs read_array", senParseOutcome([]byte(t), nil, false, false)},
+				{"sen.Parser.ParseReader 1-byte reads vs read_array", senParseOutcome([]byte(t), ones, true, false)},
+				{"sen.Tokenizer.Parse vs read_array", senTokenOutcome([]byte(t), nil, false, false)},
+			} {
+				if alt.got != exp {
+					rep.Add(Disagreement{Case: fmt.Sprintf("%q", t), Where: alt.where, Kind: "impl-vs-model:sen-read", Impl: alt.got, Model: exp})
+				}
+			}
+		}
+		rep.Count(fmt.Sprintf("sen-model:arrays=%d read-in-domain=%d", len(arrs), ain))
+	}
 	rep.Count(fmt.Sprintf("sen-model:read-in-domain=%d", inDomain))
 	rep.Count(fmt.Sprintf("sen-model:read-outside=%d", outDomain))
 	rep.Count(fmt.Sprintf("sen-model:read-hand-made-not-one-value=%d", partial))
